@@ -20,6 +20,14 @@ def value_key(b, o, depth=0):
         return ('const', const_float(b, o))
     pl = o['place']
     if pl['p']:
+        # (*r).rest where r = &q  ==>  q.rest
+        if pl['p'][0]['k'] == 'Deref' and depth < 10:
+            ds = b.defs().get(pl['l'], [])
+            if len(ds) == 1 and ds[0][1] != 'term' and not ds[0][2]['place']['p'] and ds[0][2]['rv']['k'] in ('Ref', 'CopyForDeref') \
+                    and not (1 <= pl['l'] <= b.argc):
+                q = ds[0][2]['rv']['place']
+                np = {'l': q['l'], 'p': list(q['p']) + list(pl['p'][1:])}
+                return value_key(b, {'k': 'Copy', 'place': np}, depth + 1)
         return ('place', pl['l'], repr([(e['k'], e.get('i'), e.get('name')) for e in pl['p']]))
     l = pl['l']
     if depth > 10:
